@@ -88,7 +88,7 @@ int SimulateAvr8::set_reg(const char *reg_string,uint32_t value)
 
   int index = get_register_avr8(reg_string);
 
-  if (index == -1)
+  if (index < 0 || index > 31)
   {
     // Add flags here
     return -1;
@@ -103,7 +103,7 @@ uint32_t SimulateAvr8::get_reg(const char *reg_string)
 {
   int index = get_register_avr8(reg_string);
 
-  if (index == -1)
+  if (index < 0 || index > 31)
   {
     printf("Unknown register '%s'\n", reg_string);
     return -1;
